@@ -316,8 +316,82 @@ class Paths(SubCheck):
         return out
 
 
+def stale_check(svg, tier):
+    from props import stale
+    measures = {
+        "length": lambda o: o.length(error=1e-4),
+        "point(0.3)": lambda o: o.point(0.3, error=1e-4) if hasattr(o, "values") else o.point(0.3),
+    }
+    extra = {
+        "subpath*=": lambda o: o.subpath(0).__imul__(svg.Matrix(2, 0, 0, 3, 1, -1)) if isinstance(o, svg.Path) else stale.c18._na(),
+        "transform.post_scale": lambda o: o.transform.post_scale(2, 3),
+        "transform=": lambda o: setattr(o, "transform", svg.Matrix(0, 1, -1, 0, 3, 4)) if hasattr(o, "transform") else stale.c18._na(),
+        "seg.end=": lambda o: setattr(stale.c18.first_seg(o), "end", svg.Point(77, -5)),
+        "seg.control1=": lambda o: setattr(stale.c18.first_seg_with(o, "control1"), "control1", svg.Point(30, -40)),
+        "seg.control=": lambda o: setattr(stale.c18.first_seg_with(o, "control"), "control", svg.Point(30, -40)),
+        "subpath.reverse": lambda o: o.subpath(0).reverse() if isinstance(o, svg.Path) else stale.c18._na(),
+    }
+    # derivations as "mutations" of the measured object are C18's business; here also: a new object made from a measured one
+    derive = {
+        "Path(subpath(last))": lambda o: svg.Path(o.subpath(len(list(o.as_subpaths())) - 1)) if isinstance(o, svg.Path) else stale.c18._na(),
+        "copy": lambda o: __import__("copy").copy(o),
+        "type(o)(o)": lambda o: type(o)(o) if isinstance(o, svg.Shape) else stale.c18._na(),
+        "Polygon(o)": lambda o: svg.Polygon(o) if type(o).__name__ == "Polyline" else stale.c18._na(),
+        "o*M": lambda o: o * svg.Matrix(2, 0, 0, 3, 1, -1),
+    }
+    return [stale.Stale(svg, measures, extra_mutations=extra, depth=1),
+            Derived(svg, measures, derive)]
+
+
+class Derived(SubCheck):
+    """measure x, derive y from x, measure y  ==  derive y from an unmeasured x, measure y (a memo must not travel into an
+    object of different geometry)"""
+    name = "stale-derived"
+
+    def __init__(self, svg, measures, derive):
+        from props import stale
+        self.svg, self.measures, self.derive = svg, measures, derive
+        self.src = dict(stale.c18.sources(svg))
+        self.cases_ = [(s, m, d) for s in sorted(self.src) for m in sorted(measures) for d in sorted(derive)]
+
+    def size(self):
+        return len(self.cases_)
+
+    def case(self, i):
+        s, m, d = self.cases_[i]
+        return dict(src=s, measure=m, derive=d)
+
+    def run(self, case):
+        from props import stale
+        out = Outcome()
+        fn, dv = self.measures[case["measure"]], self.derive[case["derive"]]
+        x, x2 = self.src[case["src"]](), self.src[case["src"]]()
+        try:
+            first = stale.measure(fn, x)
+            if first[0] == "raised":
+                return out
+            y = dv(x)
+            y2 = dv(x2)
+            a, b = stale.measure(fn, y), stale.measure(fn, y2)
+        except stale.c18.NotApplicable:
+            return out
+        except Exception:  # noqa  (the derivation is not defined for this kind)
+            return out
+        out.traces += 1
+        out.transitions += 1
+        out.nontrivial.append((case["src"], case["measure"], case["derive"]))
+        out.outcome = (a[0], a == first)
+        if a != b:
+            out.fail("%s of %s(%s): %r when the source had been measured first, %r when not" % (
+                case["measure"], case["derive"], case["src"], a[1], b[1]), b[1], a[1], kind="stale-derived", **case)
+        return out
+
+    def unit_test(self, case):
+        return None
+
+
 def build(tier, seed, svg):
-    return [Segments(svg, tier), Paths(svg, tier)]
+    return [Segments(svg, tier), Paths(svg, tier)] + stale_check(svg, tier)
 
 
 
@@ -380,4 +454,7 @@ def m_collinear_fold(d):
     return abs(exp - obs) <= 1e-6 * exp
 
 
-MATCHERS = {"subdivision_accuracy": m_subdivision_accuracy, "path_accuracy": m_path_accuracy, "collinear_fold": m_collinear_fold}
+from props.stale import m_length_memo_unseen_edit  # noqa: E402
+
+MATCHERS = {"length_memo_unseen_edit": m_length_memo_unseen_edit,
+            "subdivision_accuracy": m_subdivision_accuracy, "path_accuracy": m_path_accuracy, "collinear_fold": m_collinear_fold}
